@@ -69,9 +69,6 @@ Section Generic.
       + apply andb_prop in Da, Db. destruct Da as [Aa Ea], Db as [Ab Eb].
         apply str_eqb_eq in Ea, Eb. rewrite Ea, Eb.
         rewrite !trim_text_string. apply text_string_compare; assumption.
-      + apply andb_prop in Da, Db. destruct Da as [Ea Ta], Db as [Eb Tb].
-        rewrite (trim_ok_eq _ Ta), (trim_ok_eq _ Tb).
-        apply str_eqb_eq in Ea, Eb. rewrite Ea, Eb. reflexivity.
     - cbn [skey_of spec_cmp]. cbn [pair_ok_gen] in P. apply tm_law; assumption.
   Qed.
 
